@@ -14,8 +14,11 @@ import (
 	"encoding/json"
 	"flag"
 	"fmt"
+	"math/rand"
+	"runtime"
 	"strings"
 	"sync"
+	"sync/atomic"
 
 	"go.starlark.net/starlark"
 	"go.starlark.net/syntax"
@@ -31,7 +34,11 @@ type c07Prog struct {
 func c07Corpus(scale int) []c07Prog {
 	ps := []c07Prog{}
 	add := func(name, src string) { ps = append(ps, c07Prog{name, src}) }
-	for _, n := range []int{0, 1, 3, 7 * scale} {
+	sizes := []int{0, 1, 3, 7}
+	if scale > 1 {
+		sizes = []int{0, 1, 2, 3, 5, 8, 13, 21, 34, 7 * scale}
+	}
+	for _, n := range sizes {
 		add(fmt.Sprintf("for-%d", n), fmt.Sprintf("def run():\n    s = 0\n    for i in range(%d):\n        tick()\n        s += i\n    return s\n", n))
 		add(fmt.Sprintf("while-%d", n), fmt.Sprintf("def run():\n    i = 0\n    while i < %d:\n        i += 1\n        if i %% 2: tick()\n    return i\n", n))
 		add(fmt.Sprintf("comp-%d", n), fmt.Sprintf("def run():\n    return [tick() for i in range(%d) if i %% 3 != 1]\n", n))
@@ -159,6 +166,82 @@ func init() {
 	})
 
 	register("c07-sched", c07Sched)
+	register("c07-async", c07Async)
+}
+
+// c07-async: free-running asynchronous cancellation.  A non-terminating program runs on one
+// goroutine; another goroutine calls Cancel at an arbitrary time.  The VerifStep hook counts the
+// instructions that passed the cancellation test (atomically): after Cancel has returned at most
+// ONE more instruction may pass (the one that was already past the test), the error names the
+// reason, and a later execution on the same thread fails at once until Uncancel.
+func c07Async(args []string) error {
+	fs := flag.NewFlagSet("c07-async", flag.ExitOnError)
+	trials := fs.Int("trials", 200, "")
+	out := fs.String("out", "-", "")
+	fs.Parse(args)
+	w, err := openOut(*out)
+	if err != nil {
+		return err
+	}
+	defer w.Close()
+	nw := newNDWriter(w)
+	defer nw.flush()
+	progs := []string{
+		"def run():\n    x = 0\n    while True:\n        x += 1\n",
+		"def f(n):\n    return f(n + 1) if n < 50 else 0\ndef run():\n    while True:\n        f(0)\n",
+		"def run():\n    while True:\n        [i * i for i in range(20)]\n",
+		"def run():\n    while True:\n        sorted([3, 1, 2], key = lambda x: -x)\n",
+	}
+	rnd := rand.New(rand.NewSource(seed()))
+	nprob := 0
+	for t := 0; t < *trials; t++ {
+		src := progs[t%len(progs)]
+		g, err := starlark.ExecFileOptions(c07Opts, &starlark.Thread{}, "a.star", src, nil)
+		if err != nil {
+			return err
+		}
+		th := &starlark.Thread{Name: "async"}
+		var passed atomic.Int64
+		starlark.VerifStep = func(t *starlark.Thread, _ *starlark.Function, _ uint32) {
+			if t == th {
+				passed.Add(1)
+			}
+		}
+		done := make(chan error, 1)
+		go func() {
+			_, err := starlark.Call(th, g["run"], nil, nil)
+			done <- err
+		}()
+		spin := rnd.Intn(20000)
+		for i := 0; i < spin; i++ {
+			runtime.Gosched()
+		}
+		reason := fmt.Sprintf("reason-%d", t)
+		th.Cancel(reason)
+		after := passed.Load()
+		th.Cancel("second reason")
+		runErr := <-done
+		final := passed.Load()
+		probs := []string{}
+		if final-after > 1 {
+			probs = append(probs, fmt.Sprintf("%d instructions passed the cancellation test after Cancel had returned", final-after))
+		}
+		if runErr == nil || !strings.Contains(runErr.Error(), "Starlark computation cancelled: "+reason) {
+			probs = append(probs, fmt.Sprintf("error %v does not name the first reason %q", runErr, reason))
+		}
+		before := passed.Load()
+		_, err2 := starlark.Call(th, g["run"], nil, nil)
+		if err2 == nil || !strings.Contains(err2.Error(), reason) || passed.Load() != before {
+			probs = append(probs, fmt.Sprintf("re-execution on the cancelled thread: err=%v, %d instructions ran", err2, passed.Load()-before))
+		}
+		starlark.VerifStep = nil
+		if len(probs) > 0 {
+			nprob++
+			nw.write(obj{"trial": t, "prog": t % len(progs), "problems": probs})
+		}
+	}
+	nw.write(obj{"summary": true, "trials": *trials, "problems": nprob})
+	return nil
 }
 
 // ---------------------------------------------------------------- schedule replay
